@@ -1,3 +1,18 @@
-(* C18 - placeholder while the pipeline is brought up *)
+(* C18 - The in-memory file server is a tree of byte arrays and never crashes.
+   Only statements, each closed by [exact lemma], with Print Assumptions.
+   The model (Model/Ramfs.v) is the model of the REPAIRED code (fix: commits
+   34ebacc, d3563b4, 96eb152, 53d9ae4 in /repo; see design/C18.md). *)
 From Coq Require Import List NArith ZArith Bool.
 From P9 Require Import Base.Res Model.Path Model.Ramfs.
+From P9 Require Import Proofs.RamfsProofs Proofs.RamfsProofsRef Proofs.RamfsProofsInv Proofs.RamfsProofsStep.
+Import ListNotations.
+Open Scope Z_scope.
+
+(* ---- no request panics the server: all operation sequences over any number of
+   sessions, all fids, all 64-bit offsets, all counts.  [run] would stop at a
+   panic (or a hang); it never does: one ordinary result per operation. *)
+Theorem C18_no_panic : forall nsess ops,
+  Forall (fun r => r <> Panic /\ r <> Hang) (run (init_world nsess) ops) /\
+  length (run (init_world nsess) ops) = length ops.
+Proof. intros. split; [apply run_good | apply run_length]; apply init_inv. Qed.
+Print Assumptions C18_no_panic.
